@@ -2303,6 +2303,8 @@ class Struct(Construct):
             def {fname}(obj, io, this):
                 this = Container(_ = this, _params = this['_params'], _root = None, _parsing = False, _building = True, _sizing = False, _subcons = None, _io = io, _index = this.get('_index', None))
                 this['_root'] = this['_'].get('_root', this)
+                if obj is None:
+                    obj = Container()
                 this.update(obj)
                 try:
                     objdict = obj
@@ -2463,6 +2465,8 @@ class Sequence(Construct):
                 this = Container(_ = this, _params = this['_params'], _root = None, _parsing = False, _building = True, _sizing = False, _subcons = None, _io = io, _index = this.get('_index', None))
                 this['_root'] = this['_'].get('_root', this)
                 try:
+                    if obj is None:
+                        obj = [None] * {len(self.subcons)}
                     objiter = iter(obj)
                     retlist = ListContainer()
         """
